@@ -1222,7 +1222,21 @@ func runCodec(c *Ctx) {
 		c.Stat("codec_functions", 2)
 		problems := append(append([]string{}, wx.problems...), rx.problems...)
 		ws_, rs_ := strings.Join(wt, ", "), strings.Join(rtn, ", ")
+		// a streaming decoder over the stream (json.NewDecoder(..).Decode) stops at the end of the value, not at the end of the
+		// announced length: what the writer put behind the value (an Encoder's newline) stays unread - decided, not an unknown idiom
+		streaming := token.NoPos
+		ast.Inspect(rh.Body, func(m ast.Node) bool {
+			if call, ok := m.(*ast.CallExpr); ok {
+				if pkg, name := rx.calleeName(call); pkg == "encoding/json" && name == "NewDecoder" {
+					streaming = call.Pos()
+				}
+			}
+			return true
+		})
 		switch {
+		case streaming != token.NoPos:
+			c.Bad("record/header", rh.Pos(), "readControlHeader decodes the manifest with a streaming json.Decoder at "+p.Pos(streaming)+": the decoder stops behind the closing brace, not behind the announced length - "+
+				"bytes the writer counted into the length (the newline a json.Encoder appends) stay on the stream when they arrive in a later read, and the next record's type byte is read from them")
 		case len(problems) > 0:
 			c.Unknown("record/header", wh.Pos(), "header codec uses an unrecognised idiom: "+strings.Join(problems, "; "))
 		case ws_ == rs_:
